@@ -119,7 +119,7 @@ theorem source_handler_is_model (ops : SettingsOps σ) (pfx : Str) (c : Client) 
       pubGetOf canPub (ops.get s path) fits (path.count '/') = some envG)
     (hS : ∀ path, topicPath pfx m.topic = some path → setResOf (ops.set s path m.payload).1 = some envS) :
     match poll_closure (envOf ops ((topicPath pfx m.topic).getD []) m envG envS) pfx
-        { st := stToGen c.st, pending := c.pending, acts := [] } m.topic m.payload with
+        ({ st := stToGen c.st, pending := c.pending, acts := [], ext := () } : Cl Unit Unit Pending Unit) m.topic m.payload with
     | .val (cl, ret) =>
       handleMsg ops pfx c s m canPub fits =
         ({ c with st := stOfGen cl.st, pending := cl.pending },
